@@ -786,6 +786,50 @@ def index_loops_function(fn) -> int:
     changed = 0
     counter = [0]
 
+    # n = len(A) bound once (A never re-bound): range(n) is range(len(A))
+    _st: dict[str, int] = {}
+    for n_ in ast.walk(fn):
+        if isinstance(n_, ast.Name) and isinstance(n_.ctx, (ast.Store, ast.Del)):
+            _st[n_.id] = _st.get(n_.id, 0) + 1
+    len_names: dict = {}
+    for n_ in ast.walk(fn):
+        if isinstance(n_, (ast.Assign, ast.AnnAssign)) and isinstance(getattr(n_, "value", None), ast.Call):
+            tg_ = n_.targets if isinstance(n_, ast.Assign) else [n_.target]
+            v_ = n_.value
+            if len(tg_) == 1 and isinstance(tg_[0], ast.Name) and _st.get(tg_[0].id, 0) == 1 and isinstance(v_.func, ast.Name) and v_.func.id == "len" and len(v_.args) == 1 and isinstance(v_.args[0], ast.Name) and _st.get(v_.args[0].id, 0) == 0:
+                len_names[tg_[0].id] = v_
+
+    def leading_binding(st, seqs) -> bool:
+        """for i in range(len(A)): x = A[i] ; REST   ->   for i, x in enumerate(A): REST
+        (A occurs in the body only as A[i]; neither i, x nor A re-bound in REST)."""
+        nonlocal changed
+        if len(seqs) != 1 or not isinstance(seqs[0], ast.Name) or not st.body or st.orelse:
+            return False
+        i, A = st.target.id, seqs[0].id
+        first = st.body[0]
+        if not (isinstance(first, (ast.Assign, ast.AnnAssign)) and getattr(first, "value", None) is not None):
+            return False
+        tg = first.targets if isinstance(first, ast.Assign) else [first.target]
+        v = first.value
+        if not (len(tg) == 1 and isinstance(tg[0], ast.Name) and isinstance(v, ast.Subscript) and isinstance(v.value, ast.Name) and v.value.id == A and isinstance(v.slice, ast.Name) and v.slice.id == i):
+            return False
+        x = tg[0].id
+        rest = ast.Module(body=st.body[1:], type_ignores=[])
+        for n in ast.walk(rest):
+            if isinstance(n, ast.Name) and n.id == A:
+                par = getattr(n, "_parent", None)
+                if not (isinstance(par, ast.Subscript) and par.value is n and isinstance(par.slice, ast.Name) and par.slice.id == i):
+                    return False
+            if isinstance(n, ast.Name) and isinstance(n.ctx, (ast.Store, ast.Del)) and n.id in (i, A):
+                return False
+            if isinstance(n, (ast.FunctionDef, ast.Lambda)):
+                return False
+        st.target = ast.copy_location(ast.Tuple(elts=[ast.Name(id=i, ctx=ast.Store()), ast.Name(id=x, ctx=ast.Store())], ctx=ast.Store()), st.target)
+        st.iter = ast.copy_location(ast.Call(func=ast.Name(id="enumerate", ctx=ast.Load()), args=[ast.Name(id=A, ctx=ast.Load())], keywords=[]), st.iter)
+        st.body = st.body[1:] or [ast.copy_location(ast.Pass(), st)]
+        changed += 1
+        return True
+
     def seqs_of(it):
         if not (isinstance(it, ast.Call) and isinstance(it.func, ast.Name) and it.func.id == "range" and len(it.args) == 1 and not it.keywords):
             return None
@@ -796,6 +840,8 @@ def index_loops_function(fn) -> int:
                 return e.args[0]
             return None
 
+        if isinstance(a, ast.Name) and a.id in len_names:
+            a = len_names[a.id]
         one = len_of(a)
         if one is not None:
             return [one]
@@ -816,6 +862,8 @@ def index_loops_function(fn) -> int:
                 continue
             seqs = seqs_of(st.iter)
             if not seqs:
+                continue
+            if leading_binding(st, seqs):
                 continue
             i = st.target.id
             texts = [norm(q) for q in seqs]
@@ -995,7 +1043,41 @@ def inline_test_flags_function(fn) -> int:
             return attr_test(e.value)
         return isinstance(e, (ast.Name, ast.Constant))
 
+    def _harmless(st, chains) -> bool:
+        """A simple statement between the flag and its reader that cannot change what the flag tested:
+        stores to other names / attributes, calls only of numpy functions and builtin constructors."""
+        if not isinstance(st, (ast.Assign, ast.AnnAssign, ast.AugAssign)):
+            return False
+        tg = st.targets if isinstance(st, ast.Assign) else [st.target]
+        for t in tg:
+            tx = ast.unparse(t)
+            if not isinstance(t, (ast.Name, ast.Attribute)) or any(c == tx or c.startswith(tx + ".") or tx.startswith(c + ".") for c in chains):
+                return False
+        for c in ast.walk(st):
+            if isinstance(c, ast.Call):
+                fx = ast.unparse(c.func)
+                if not (fx.startswith(("np.", "numpy.")) or fx in ("len", "int", "float", "bool", "list", "tuple", "dict", "set", "str")):
+                    return False
+            elif isinstance(c, (ast.Await, ast.Yield, ast.YieldFrom, ast.NamedExpr, ast.Lambda)):
+                return False
+        return True
+
     def _adjacent(stmts):
+        # the reader may follow after a few harmless statements: move the flag down to its reader first
+        k = 0
+        while k < len(stmts):
+            a_ = stmts[k]
+            if isinstance(a_, (ast.Assign, ast.AnnAssign)) and getattr(a_, "value", None) is not None and attr_test(a_.value) and not isinstance(a_.value, (ast.Name, ast.Constant, ast.Attribute)):
+                tg = a_.targets if isinstance(a_, ast.Assign) else [a_.target]
+                if len(tg) == 1 and isinstance(tg[0], ast.Name) and stores.get(tg[0].id, 0) == 1:
+                    chains = {ast.unparse(x) for x in ast.walk(a_.value) if isinstance(x, (ast.Attribute, ast.Name)) and not isinstance(getattr(x, "_parent", None), ast.Attribute)}
+                    j = k + 1
+                    while j < len(stmts) and _harmless(stmts[j], chains | {tg[0].id}) and not any(isinstance(x, ast.Name) and x.id == tg[0].id for x in ast.walk(stmts[j])):
+                        j += 1
+                    if j > k + 1 and j < len(stmts) and isinstance(stmts[j], ast.If) and any(isinstance(x, ast.Name) and x.id == tg[0].id for x in ast.walk(stmts[j].test)):
+                        stmts.insert(j - 1, stmts.pop(k))
+                        continue
+            k += 1
         for a_, b_ in zip(stmts, stmts[1:]):
             if isinstance(a_, (ast.Assign, ast.AnnAssign)) and getattr(a_, "value", None) is not None and isinstance(b_, ast.If):
                 tg = a_.targets if isinstance(a_, ast.Assign) else [a_.target]
